@@ -510,6 +510,9 @@ def judge(ctx, cases, traces):
             kinds = '/'.join(o['k'] for o in c['ops'])
             arity = {1: 'unary', 2: 'binary'}.get(len(c['ops']), 'nary')
             sig = 'lazy:%s:%s:%s:%s:%s' % (arity, c['form'], kinds, c['how'], why)
+            if 'fn' in kinds.split('/') and (arity == 'nary' or c['form'] == 'builtin'):
+                # one root cause (see known_findings.d/C15.json): a Function among the operands reaches the raw kernel
+                sig = 'lazy:fn-operand:%s:%s' % (arity, c['form'])
             obs = dict(O=t['O'][:8], tab=t['tab'][:6])
             what = ('composed %s (%s form) over operands %s, traversed as %s (%s%s): the outcomes of next() differ from '
                     'the kernel applied to the elements the operands deliver (%s); operands %s; observed %s; kernel '
@@ -538,12 +541,14 @@ def run(ctx):
     thorough = not ctx.quick
     rnd = random.Random(ctx.seed + 15)
     stage = ctx.cov.setdefault('stage_s', {})
-    acts = ('PickList', 'PickFn', 'PickStream', 'PickScalar', 'PickSame', 'PickKernel')
+    acts = ('PickList', 'PickFn', 'PickStream', 'PickScalar', 'PickSame', 'PickLazy', 'PickKernel')
     r = ctx.model_check('Ops', 'Ops_thorough.cfg' if thorough else 'Ops.cfg', require_cover=acts, timeout=900)
     ctx.expect_ok(r, 'Ops structure and kernel-law model')
     r = ctx.model_check('OpsStream', 'OpsStream_thorough.cfg' if thorough else 'OpsStream.cfg',
                         require_cover=('DrawA', 'DrawB'), timeout=300)
     ctx.expect_ok(r, 'BinopStream draw order refines the stream law')
+    r = ctx.model_check('Ops', 'OpsLazyAccept.cfg', timeout=600, label='lazy matcher accepts the prescribed outcomes')
+    ctx.expect_ok(r, 'lazy matcher')
     stage['model'] = round(time.time() - ctx.t0, 1)
 
     cat = get_catalog(ctx)
